@@ -32,7 +32,9 @@ TxStep(acc, x, e, l) ==
                 THEN AddViol(L, "C05", "resend-mixture", l,
                              "echo in the confirm wait equals no fragment transmitted before")
                 ELSE L
-        L2 == IF x.uns /\ L1.uns.has /\ L1.uns.active /\ Awaiting(L1.uns, L1, x.t + 1)
+        \* an unsolicited fragment with the sequence number of the one whose series is still open is its retry
+        \* (a new series takes the next number): it must be that fragment, byte for byte
+        L2 == IF x.uns /\ L1.uns.has /\ L1.uns.active
                     /\ x.seq = L1.uns.seq /\ x.bid # L1.uns.bid
                 THEN AddViol(L1, "C05", "retry-changed", l,
                              "unsolicited retry differs from the fragment it repeats")
